@@ -124,6 +124,16 @@ def gen_field(rng, ds):
         nodata = rng.choice([-9999, -9999, -1, 0, 3, 5, -2])
     p_nd = rng.choice([0.0, 0.0, 0.12, 0.35])
     lo = 0 if sign == "nonneg" else -hi
+    # large-magnitude exact values: above float32's 2**24 (and, for int64, above float64's 2**53) but with every
+    # partial sum inside the dtype - exact in the implementation's own arithmetic, inexact in any narrower one
+    base = 0
+    if rng.random() < 0.2 and dt in ("int64", "float64", "int32") and nvalid >= 1:
+        if dt == "int64":
+            base = rng.randint(2 ** 53, 2 ** 61 // nvalid)
+        elif dt == "float64":
+            base = rng.randint(2 ** 40, 2 ** 52 // nvalid) // scale * scale
+        elif (2 ** 31 - 1) // nvalid - 8 > 2 ** 24:
+            base = rng.randint(2 ** 24, (2 ** 31 - 1) // nvalid - 8)
     vals = []
     has_nd = False
     for i in range(n):
@@ -136,12 +146,14 @@ def gen_field(rng, ds):
         else:
             while True:
                 v = rng.randint(lo * scale, hi * scale)
+                if base and rng.random() < 0.7:
+                    v = base + abs(v)
                 if v != nodata * scale:
                     break
         vals.append(v)
     arr = np.array([Fraction(v, scale) for v in vals], dtype=np.float64).astype(dt) if isf else np.array(vals, dtype=dt)
     nd = float(nodata) if isf and rng.random() < 0.5 else nodata
-    return arr, nd, scale, {"dtype": dt, "sign": sign, "has_nodata": has_nd, "ints": vals}
+    return arr, nd, scale, {"dtype": dt, "sign": sign, "has_nodata": has_nd, "ints": vals, "large": bool(base)}
 
 
 def drv_err(a):
@@ -208,6 +220,8 @@ def case_accuflux(ctx, flw, ds, shape, seq, order, nontriv, fam):
     shape_ok = out.shape == data.shape and out.dtype == data.dtype
     ctx.count("accuflux:" + direction)
     ctx.count("field:" + meta["dtype"])
+    if meta.get("large"):
+        ctx.count("field-large-magnitude:" + meta["dtype"])
     ctx.count("field-nodata-cells" if meta["has_nodata"] else "field-no-nodata")
     if meta["sign"] == "mixed":
         ctx.count("field-negative")
